@@ -184,7 +184,7 @@ pub fn run(ctx: &Ctx) {
          hash of (dissector, bytes).",
     );
     ctx.assume("VLAN id 0: both the folded 6-byte and the literal 8-byte answer are accepted here (C13 decides it)");
-    let per_len: u64 = ctx.tier.pick(2_000, 10_000);
+    let per_len: u64 = ctx.tier.pick(20_000, 100_000);
 
     // (1) lengths 0..=64 x random contents, both dissectors
     ctx.par_range(65 * 2, |w, i| {
@@ -262,7 +262,7 @@ pub fn run(ctx: &Ctx) {
     ctx.subspace("16 version nibbles x lengths 18..=42 x random contents", 16 * 25 * per, false);
 
     // (5) proptest: arbitrary byte strings up to 128 bytes with shrinking
-    let cases: u32 = ctx.tier.pick(20_000, 400_000);
+    let cases: u32 = ctx.tier.pick(300_000, 3_000_000);
     ctx.proptest(
         "pt-bytes",
         cases,
